@@ -48,8 +48,37 @@ def name_str(i):
     return "n%08d" % i
 
 
+CREATED = []      # (kind, object handed to prtpy, independent snapshot) - consulted by the history port (C15)
+
+
+def _register(kind, obj):
+    import copy
+    CREATED.append((kind, obj, obj.copy() if isinstance(obj, np.ndarray) else copy.deepcopy(obj)))
+    return obj
+
+
+def unchanged_arguments():
+    """None if every registered argument object still equals its snapshot, else a description"""
+    for kind, obj, snap in CREATED:
+        if isinstance(obj, np.ndarray):
+            same = obj.shape == snap.shape and obj.dtype == snap.dtype and bool(np.array_equal(obj, snap))
+        elif isinstance(obj, dict):
+            same = list(obj.items()) == list(snap.items())      # order of keys included
+        else:
+            same = type(obj) is type(snap) and obj == snap
+        if not same:
+            return f"{kind} argument changed from {snap!r} to {obj!r}"
+    return None
+
+
 def make_items(vals, ids, fmt):
     """returns (items, valueof_or_None, decode) ; decode maps a Python item back to its id"""
+    items, valueof, decode = _make_items(vals, ids, fmt)
+    _register(fmt, items)
+    return items, valueof, decode
+
+
+def _make_items(vals, ids, fmt):
     if fmt == "list":
         return list(vals), None, lambda x: _int(x)
     if fmt == "tuple":
@@ -63,7 +92,7 @@ def make_items(vals, ids, fmt):
         d = {int(i): v for i, v in zip(ids, vals)}
         return d, None, lambda x: _int(x)
     if fmt == "names_valueof":
-        d = {name_str(i): v for i, v in zip(ids, vals)}
+        d = _register("valueof-dict", {name_str(i): v for i, v in zip(ids, vals)})
         return [name_str(i) for i in ids], (lambda x, d=d: d[x]), lambda x: int(x[1:])
     if fmt == "scaled":   # exactly representable fractions: values / 2^j, handled by caller
         raise ValueError("scaled handled by caller")
@@ -565,8 +594,26 @@ def p_numitems(a):
     return {"num": int(b.numitems(bins, a["i"]))}
 
 
+def p_history(a):
+    """executes the calls one after the other in THIS interpreter; after each call reports its result and whether
+    any argument object handed to prtpy (list, array, dict, the dict behind the value function) was modified"""
+    out = []
+    for c in a["calls"]:
+        del CREATED[:]
+        try:
+            r = PORTS[c["port"]](c["args"])
+        except CaseTimeout:
+            raise
+        except RecursionError:
+            r = {"exc": "RecursionError"}
+        except Exception as e:      # noqa
+            r = enc_exc(e)
+        out.append({"result": r, "args_changed": unchanged_arguments()})
+    return {"history": out}
+
+
 PORTS = {
-    "numitems": p_numitems, "ilp_full": p_ilp_full,
+    "numitems": p_numitems, "ilp_full": p_ilp_full, "history": p_history,
     "binner_ops": p_binner_ops,
     "partition": p_partition, "pack": p_pack, "cg_clock": p_cg_clock, "cbldm_clock": p_cbldm_clock,
     "cbldm_args": p_cbldm_args, "ckk_generator": p_ckk_generator, "algo_direct": p_algo_direct,
